@@ -106,6 +106,22 @@ def bf_recheck(text):
             'def bfRecheck : Bool := %s' % val)
 
 
+def catch_dcheck(text):
+    """does the producer's catch block still assert `producer_sig_ != kDestroy` before it records the exception?
+    (in builds where DCHECK is live this throws out of the thread function when a failure races with Destroy:
+    finding C09-F2)"""
+    m = re.search(CATCH, text)
+    if not m:
+        raise cexpr.ParseError('catch block not found')
+    e = re.compile(r'std::lock_guard<std::mutex> lock\(mutex_exception_\);').search(text, m.end())
+    if not e:
+        raise cexpr.ParseError('catch block: lock of mutex_exception_ not found')
+    between = re.sub(r'//[^\n]*', '', text[m.end():e.start()])
+    val = 'true' if re.search(r'\bD?CHECK(_\w+)?\s*\(', between) else 'false'
+    return ('-- the catch block of the producer thread CHECKs / DCHECKs something before recording the exception\n'
+            'def catchDcheck : Bool := %s' % val)
+
+
 ITEMS = [
     {'name': 'signals', 'file': F, 'custom': signals},
     # ---- producer loop -------------------------------------------------------------------------
@@ -124,6 +140,7 @@ ITEMS = [
     item('pPublishNotify', PRODUCER, r'// put things into queue\s*notify = ([^;]+);\s*\}\s*if \(notify\) \{\s*consumer_cond_\.notify_all\(\);',
          ['nwaitC']),
     # ---- producer catch block --------------------------------------------------------------------
+    {'name': 'catchDcheck', 'file': F, 'custom': catch_dcheck},
     item('cIsRewind', CATCH, r'std::unique_lock<std::mutex> lock\(mutex_\);\s*if \((.+?)\) \{\s*while \(queue_\.size\(\) != 0\)', ['sig']),
     item('cIsProduce', CATCH, r'\} else if \((.+?)\) \{\s*produce_end_\.store\(true, std::memory_order_release\);\s*next_notify',
          ['sig']),
